@@ -36,7 +36,7 @@ NSHARDS = {'quick': 16, 'thorough': 16}
 def required_cells(tier):
     return ['functions-match', 'body-lines-equal', 'want-comments-equal', 'star-import-removed',
             'star-import-nested-removed', 'dump-compiles', 'disabled-omitted',
-            'two-blocks', 'multi-line-want', 'cli', 'kind:mlstr', 'kind:deco', 'kind:await', 'kind:comment', 'kind:mlstr_trailing']
+            'two-blocks', 'multi-line-want', 'cli', 'kind:mlstr', 'kind:deco', 'kind:await', 'kind:comment', 'kind:mlstr_trailing', 'kind:markercomment']
 
 
 AWAIT_ERRORS = ("'await' outside async function", "'async with' outside async function",
